@@ -2,6 +2,7 @@ package main
 
 import (
 	"math"
+	"strconv"
 	"strings"
 
 	"github.com/EliCDavis/polyform/math/geometry"
@@ -9,6 +10,7 @@ import (
 	"github.com/EliCDavis/polyform/math/quaternion"
 	"github.com/EliCDavis/polyform/math/trs"
 	"github.com/EliCDavis/polyform/modeling"
+	"github.com/EliCDavis/polyform/modeling/meshops"
 	"github.com/EliCDavis/vector/vector3"
 )
 
@@ -388,6 +390,51 @@ func runC17(c *Ctx) {
 			c.Emit("c17.mesh.translate", vF(tp)+args, out(m.Translate(tp)))
 			c.Emit("c17.mesh.scale", vF(ts)+args, out(m.Scale(ts)))
 			c.Emit("c17.mesh.applytrs", vF(tp)+" "+qF(u1)+" "+vF(ts)+args, out(m.ApplyTRS(t)))
+			c.Emit("c17.quat.rotatearray", qF(u1)+args, outArr(u1.RotateArray(pts)))
+			// meshops transforms on a mesh with Position AND Normal, on either attribute or on one the mesh does not have:
+			// the answer is the WHOLE result mesh (both attributes, indices, topology, number of other attributes) or panic
+			{
+				nrm := make([]vector3.Float64, n)
+				nargs := ""
+				for i := range nrm {
+					nrm[i] = c.v3()
+					nargs += " " + vF(nrm[i])
+				}
+				m2 := m.SetFloat3Attribute(modeling.NormalAttribute, nrm)
+				meshOut := func(r modeling.Mesh) string {
+					var sb []string
+					for _, a := range []string{modeling.PositionAttribute, modeling.NormalAttribute} {
+						if r.HasFloat3Attribute(a) {
+							it := r.Float3Attribute(a)
+							for i := 0; i < it.Len(); i++ {
+								sb = append(sb, vF(it.At(i)))
+							}
+						} else {
+							sb = append(sb, "-")
+						}
+						sb = append(sb, "|")
+					}
+					ix := r.Indices()
+					for i := 0; i < ix.Len(); i++ {
+						sb = append(sb, strconv.Itoa(ix.At(i)))
+					}
+					others := len(r.Float1Attributes()) + len(r.Float2Attributes()) + len(r.Float4Attributes())
+					sb = append(sb, "|", strconv.Itoa(int(r.Topology())), strconv.Itoa(others))
+					return strings.Join(sb, " ")
+				}
+				sels := []int{0, 1, 2}
+				if n > 100 {
+					sels = []int{1}
+				}
+				for _, sel := range sels {
+					attr := []string{modeling.PositionAttribute, modeling.NormalAttribute, "Missing"}[sel]
+					tail := " " + nS + args + nargs
+					c.Emit("c17.meshop", Fs(0, float64(sel))+" "+qF(u1)+tail, Guard(func() string { return meshOut(meshops.RotateAttribute3D(m2, attr, u1)) }))
+					c.Emit("c17.meshop", Fs(1, float64(sel))+" "+vF(tp)+tail, Guard(func() string { return meshOut(meshops.TranslateAttribute3D(m2, attr, tp)) }))
+					c.Emit("c17.meshop", Fs(2, float64(sel))+" "+vF(tp)+" "+vF(ts)+tail, Guard(func() string { return meshOut(meshops.ScaleAttribute3D(m2, attr, tp, ts)) }))
+					c.Note("meshop." + attr)
+				}
+			}
 		}
 		la, lb := c.v3(), c.v3()
 		if la.Distance(lb) > 1e-6 {
